@@ -74,6 +74,7 @@ def check(ctx):
     ctx.rule("T1-truthy", "existing entries are never tested by truthiness in the store's path functions")
     ctx.rule("T7-share-leaf", "each descent loop of add/addNode/change/fetch/fetchShare/fetchNode tests isinstance(.., Share)")
     ctx.rule("T7-normalise", "path functions split name.strip('.') on '.'")
+    change_replaces_shares_only(ctx)
     ctx.rule("T9-names", "created nodes are named '.'.join(levels[:depth]); create/createNode add only on None")
     S = ctx.cls("storing", "Store")
     for name in ("add", "addNode", "change"):
@@ -195,3 +196,22 @@ def check(ctx):
                   "create must return the existing entry, never replace it; empty containers are falsy so the test must be `is not None`")
     bn = ctx.fn("storing", "Node.byName")
     ctx.check("self.name = name" in src(bn) or "self._name = name" in src(bn), "T9-names", bn, "Node.byName stores the name", "")
+
+
+def change_replaces_shares_only(ctx):
+    """Store.change puts the share where a *share* of that name already is: the final placement is guarded by
+    `tail in node` and `isinstance(node[tail], Share)` (replacing a node would drop its whole subtree)"""
+    S = ctx.cls("storing", "Store")
+    f = S.own_method("change")
+    V = FuncView(ctx, f)
+    puts = [n for n in V.cfg.nodes if isinstance(n.ast, ast.Assign) and isinstance(n.ast.targets[0], ast.Subscript) and
+            dotted(n.ast.targets[0].value) == "node"]
+    V.need(puts, "node[tail] = share in Store.change")
+    ok = True
+    for p in puts:
+        fs = V.symfacts(p)
+        key = src(p.ast.targets[0].slice)
+        ok = ok and ("%s in node" % key) in fs and any(f_.startswith("isinstance(node[%s], Share)" % key) for f_ in fs)
+    ctx.check(ok, "T7-share-leaf", f, "Store.change replaces only an existing *share* (tail in node and isinstance(node[tail], Share))",
+              "changing a path that currently holds a node replaces the node and its whole subtree by the share: every share "
+              "placed below it disappears from lookups")
